@@ -210,6 +210,8 @@ def classify(step_text, tags):
                 add("C01" if t == "VALS" else "C03", f"{'values' if t == 'VALS' else 'index membership'} differ at offset {det}")
                 if t == "VALS":
                     add("C10", f"a reader was handed a value at offset {det} that no transaction committed")
+                    if "WMerge" in step_text or "KMerge" in step_text:
+                        add("C09", f"the value at offset {det} is not the fold of the merged deltas")
                 if det in ins:
                     add("C11", f"freshly inserted row {det} exposes foreign data ({t})")
         elif t == "COUNT":
@@ -349,9 +351,18 @@ def run_hist_engine(ctx, spec):
     if ctx.pid == "C15":
         for v in (s["stats"].get("IdViolations") or [])[:5]:
             ctx.violation("ids", "change stream: " + v, data={"engine": "hist", "profile": spec["profile"], "seed": seed, "case": 0})
+    if ctx.pid == "C07":
+        for case, notes in (s.get("notes") or {}).items():
+            for nte in notes:
+                if nte.startswith("restore failed"):
+                    ctx.violation("restore", f"Restore of a snapshot the collection just wrote failed: {nte}  (profile={spec['profile']} seed={seed} case={case})",
+                                  data={"engine": "hist", "profile": spec["profile"], "seed": seed, "case": int(case), "history": vlib.case_text(s["shards"], int(case)) or ""})
     if ctx.pid == "C04":
         for case, notes in (s.get("notes") or {}).items():
             for nte in notes:
+                if nte.startswith("Avg:"):
+                    ctx.violation("avg", nte + f"  (profile={spec['profile']} seed={seed} case={case})",
+                                  data={"engine": "hist", "profile": spec["profile"], "seed": seed, "case": int(case), "history": vlib.case_text(s["shards"], int(case)) or ""})
                 if nte.startswith("Range: cursor"):
                     ctx.violation("cursor", nte, data={"engine": "hist", "profile": spec["profile"], "seed": seed, "case": int(case)})
 
@@ -624,7 +635,7 @@ def run_sched_engine(ctx, spec):
                     continue
                 seen.add(k)
                 org = origin[k] if k < len(origin) else "?"
-                if ctx.pid in ("C10", "C18", "C09"):
+                if ctx.pid in ("C10", "C18", "C09", "C02"):
                     sc, cs, ch, choices = org.split(":", 3)
                     ctx.violation("latch", f"a thread got past a latch acquisition the protocol forbids (event {i} of the {ch} trace of {sc} cfg {cs})",
                                   data={"engine": "sched", "scenario": sc, "cfg_seed": int(cs), "choices": json.loads(choices.replace(" ", ","))})
@@ -653,8 +664,21 @@ def run_persist_engine(ctx, spec):
     cov["exhaustive"] = bool(s.get("exhaustive"))
     cov.setdefault("engines", []).append({k: s[k] for k in s if k not in ("failures", "samples")} | {"wall_s": round(time.time() - t0, 1)})
     cov["samples"] += [{"engine": kind, "case": x} for x in (s.get("samples") or [])[:2]]
-    for f in (s.get("failures") or [])[:6]:
-        ctx.violation(kind, f, data={"engine": kind, "seed": ctx.seed, "failure": f})
+    # a failure tagged "[Cxx] ..." concerns that property only (e.g. what the change stream carries
+    # after a failed restore); untagged ones concern the engine's own property (C13 trunc, C14 fault)
+    own = {"trunc": "C13", "fault": "C14"}[kind]
+    shown = 0
+    for f in (s.get("failures") or []):
+        m = re.match(r"\[(C\d\d)\] ", f)
+        concerns = m.group(1) if m else own
+        if concerns != ctx.pid:
+            ctx.other.append({"concerns": [concerns], "what": f[:200]})
+            continue
+        if shown < 6:
+            ctx.violation(kind, f, data={"engine": kind, "seed": ctx.seed, "failure": f})
+            shown += 1
+    if ctx.pid != own:
+        return
     sc = os.path.join(out, "snap_cases.v")
     if os.path.exists(sc):
         p = subprocess.run(["timeout", "600", "coqc", "-Q", COQ, "ColumnV", sc], cwd=out, stdout=subprocess.PIPE, stderr=subprocess.STDOUT, text=True, preexec_fn=vlib.big_stack)
@@ -749,11 +773,11 @@ H = lambda profile, q, t, **kw: dict(engine="hist", profile=profile, quick=q, th
 PROPS = {
     "C01": dict(engines=[H("values", 60, 900), H("mix", 30, 400)],
                 rule="random histories over all column kinds executed on the implementation and replayed through Store.v; non-trivial = >=3 committed transactions with offset reuse, a multi-block transaction or a merge; distinct by SHA-1 of the history"),
-    "C02": dict(engines=[H("atomic", 70, 900), S("rows", 200, 3000, dfs_thorough=4000, locks=False)],
+    "C02": dict(engines=[H("atomic", 70, 900), S("rows", 200, 3000, dfs_thorough=4000)],
                 rule="histories with 50% rolled back transactions mixing successful and failing inserts; non-trivial = at least one abort, one commit and an insert; plus controlled schedules of committing and aborting writers whose commits carry row markers (a delete of a seeded row, a kept insert) beside a writer that grows the collection by a block"),
     "C03": dict(engines=[H("index", 70, 900)],
                 rule="histories with indexes created/dropped mid-history, replicas and restores; non-trivial = >=3 commits with deletes or merges"),
-    "C04": dict(engines=[H("filter", 80, 1000), dict(engine="bitmap", quick=400, thorough=6000)],
+    "C04": dict(engines=[H("filter", 120, 1200), dict(engine="bitmap", quick=400, thorough=6000)],
                 rule="histories with filter chains and terminals; non-trivial = a chain operator and a terminal in the history"),
     "C05": dict(engines=[dict(engine="codec", quick=300, thorough=6000), dict(engine="wire", quick=80, thorough=800), H("mix", 30, 300)],
                 rule="random op sequences over {delete, insert, put, merge} x {0,2,4,8-byte, bytes} x offset moves, written to the real buffer; every case is distinct by construction (independent PRNG streams) and non-trivial (>=1 op); the model must produce the same bytes"),
@@ -761,7 +785,7 @@ PROPS = {
                 rule="sequential: histories replayed on a second collection (channel clones or a serialized log file), replica dump compared; schedules: 2-3 writers over 1-2 blocks (random + exhaustive DFS in the thorough tier), replica fed in logger order; distinct = distinct schedule traces"),
     "C08": dict(engines=[S("snap", 700, 6000, dfs_quick=300, dfs_thorough=8000), H("restore", 30, 300)],
                 rule="a snapshot thread beside 2-3 committing writers (merges and overwrites, one or two blocks) at every yield point of the commit and snapshot protocols; the restored rows must be a prefix per block of the latch order containing every commit acknowledged before the snapshot began"),
-    "C09": dict(engines=[S("rows", 250, 4000, dfs_quick=300, dfs_thorough=8000)],
+    "C09": dict(engines=[S("rows", 250, 4000, dfs_quick=300, dfs_thorough=8000), H("values", 30, 300)],
                 rule="2-3 writers merging (additive and order-sensitive v*3+d) into overlapping rows of 1-2 blocks with readers; final value = fold of the committed deltas in latch order"),
     "C10": dict(engines=[S("rows", 250, 4000, dfs_quick=300, dfs_thorough=8000), H("values", 30, 300)],
                 rule="writers preserving a+b=100 on every row beside point and range readers reading a, yielding, reading b; every recorded schedule is also replayed through the latch protocol model; plus sequential histories of every column kind (every value a reader is handed is one some transaction committed)"),
@@ -776,7 +800,8 @@ PROPS = {
                 rule="snapshot files (random history, 0-3 transactions committed during the snapshot) and commit-log files cut at: the first 24 bytes, the state/log boundary +-6, the last 200 bytes, 120 random offsets (every offset in the thorough tier); every cut is a distinct case"),
     "C14": dict(engines=[dict(engine="persist", kind="fault", quick=3, thorough=9)],
                 rule="destination writers failing at a chosen call index or byte budget, once or forever, on empty / single-block / multi-block collections, with a transaction committing during the snapshot; every plan is a distinct case"),
-    "C15": dict(engines=[H("mix", 60, 800), H("atomic", 30, 300), S("rows", 150, 3000, dfs_thorough=4000)],
+    "C15": dict(engines=[H("mix", 60, 800), H("atomic", 30, 300), S("rows", 150, 3000, dfs_thorough=4000),
+                         dict(engine="persist", kind="trunc", quick=3, thorough=6)],
                 rule="histories with a recording logger: emitted commits (decoded per block) compared with the model's stream, ids checked to be distinct, non-zero and increasing per block; non-trivial = >=2 emitted commits with an abort or a multi-block transaction"),
     "C16": dict(engines=[H("sorted", 120, 1500)],
                 rule="histories with a sorted index; non-trivial = an Ascend in the history"),
